@@ -31,7 +31,7 @@ asm statements: __asm__ [__volatile__] ( "template" ["more"] : outputs : inputs 
   * the carry flag CC.CF is NOT assumed to survive from one asm statement to the next: it is undefined at the start
     of every asm statement, addc/subc/madc before a .cc instruction of the SAME template is an error;
   * an output that is never written, a read of an unwritten register, a guarded write without old value are errors.
-C++ glue (whitelist): declarations of uint64_t uint32_t int int32_t int64_t unsigned bool (scalars, initialised or
+C++ glue (whitelist): plain { } blocks, declarations of uint64_t uint32_t int int32_t int64_t unsigned bool (scalars, initialised or
   not, and fixed arrays), assignments to such cells / val / x.val / arr[k], calls of the members above, return *this,
   and expressions built from cells, val, x.val, arr[k], lo() hi() x.lo() x.hi() (their bodies are translated too),
   integer literals, MOD and gl64_device::W (values parsed from the header), casts between the integer types (C++
@@ -546,6 +546,12 @@ class Gen:
             return
         if s.startswith('__asm__'):
             return self.asm(fr, s)
+        if s.startswith('{'):                                   # a plain block: its statements, then what follows it
+            j = close(s, 1, '{', '}')
+            for s2 in split_top(s[1:j], ';') + [s[j + 1:]]:
+                if not fr.get('done'):
+                    self.stmt(fr, s2.strip())
+            return
         m = re.fullmatch(r'return\s+(.*)', s, re.S)
         if m:
             fr['ret'] = self.expr(fr, m.group(1)); fr['done'] = True
@@ -595,7 +601,7 @@ class Gen:
     def asm(self, fr, s):
         i = s.find('(')
         j = close(s, i + 1, '(', ')') if i >= 0 else -1
-        if i < 0 or s[j + 1:].strip() or not re.fullmatch(r'__asm__(\s+__volatile__)?\s*', s[:i]):
+        if i < 0 or s[j + 1:].strip() or not re.fullmatch(r'__asm__(\s+__volatile__)?(\s+volatile)?\s*', s[:i]):
             raise ParseError('asm statement shape')
         secs = split_top(s[i + 1:j], ':')
         if len(secs) > 4 or (len(secs) == 4 and [c for c in split_top(secs[3], ',') if c.strip() not in ('', '"memory"')]):
@@ -1025,7 +1031,8 @@ def generate(src):
             par = ['t0', 't1', 't2', 't3'] if kind == 'arr' else ['xa', 'xb'] + ['q%d' % (i + 1) for i in range(npar)]
             # products in another number or order than the hand-written invariants expect: a stub of the right arity
             # (lib/c20.py then leaves the free-product obligations out; the products stay covered by TLC and replay)
-            bodies[arch] = tla_body(ir, res) if ok else '  %s%d(xa, xb)' % (name[:-4], arch)
+            plain = name[:-4] if name[:-4] in [o[0] for o in OPS] else None
+            bodies[arch] = tla_body(ir, res) if ok else '  %s%d(xa, xb)' % (plain, arch) if plain else '  0'
             info['insns']['%s%d' % (name, arch)] = len(ir)
             info['nfree'][name] = len(q)
             same = arch != ARCHS[0] and bodies[arch] == bodies[ARCHS[0]] and q == prog[(name, ARCHS[0])][2]
